@@ -171,11 +171,11 @@ fn gen(rng: &mut Rng, n: usize, tier: &str) -> Vec<Req> {
         for (k, v) in st {
             *stats.entry(k).or_default() += v;
         }
-        out.push(Req::new(format!("c06.resolve {reps} {} {} {}", sc.ver, rng.below(8), sc.payload()), "room"));
+        out.push(Req::new(format!("c06.resolve {reps} {} {} {}", sc.ver, rng.below(8), sc.payload()), format!("room{}", sr::shape(&sc))));
     }
     for _ in 0..(n / 10).max(3) {
         let sc = sr::gen_overlay(rng);
-        out.push(Req::new(format!("c06.resolve {reps} {} {} {}", sc.ver, rng.below(8), sc.payload()), "overlay"));
+        out.push(Req::new(format!("c06.resolve {reps} {} {} {}", sc.ver, rng.below(8), sc.payload()), format!("overlay{}", sr::shape(&sc))));
     }
     eprintln!("generator statistics: {stats:?}");
     out
